@@ -23,6 +23,7 @@ type reachInfo struct {
 	defs    map[types.Object][]reachDef
 	parents map[ast.Node]ast.Node
 	addr    map[types.Object]bool // &x taken, or assigned inside a function literal: never resolved
+	last    ast.Stmt              // the defining statement of the last successful at()
 }
 
 func reachingDefs(info *types.Info, body *ast.BlockStmt) *reachInfo {
@@ -183,6 +184,7 @@ func (ri *reachInfo) at(o types.Object, use ast.Node) (localDef, bool) {
 			}
 		}
 	}
+	ri.last = best.stmt
 	return best.def, true
 }
 
